@@ -244,4 +244,184 @@ theorem seqOK_get {h : Abs} {hist : List Beh} {recs : List StepRec} (hs : SeqOK 
         obtain ⟨r', hr', hok⟩ := ih h2 k hb
         exact ⟨r', by simpa using hr', by rw [heldAt_succ]; exact hok⟩
 
+/-! ### one process, action by action -/
+
+/-- `n` actions of one process -/
+def iter : Nat → Disk × Proc → Disk × Proc
+  | 0, x => x
+  | n + 1, x => iter n (stepProc x.1 x.2)
+
+theorem stepProc_done (d : Disk) (p : Proc) (h : p.isDone = true) : stepProc d p = (d, p) := by
+  obtain ⟨pc, beh, dry, sent⟩ := p
+  cases pc <;> simp [Proc.isDone] at h
+  simp [stepProc]
+
+theorem iter_done (n : Nat) (d : Disk) (p : Proc) (h : p.isDone = true) : iter n (d, p) = (d, p) := by
+  induction n with
+  | zero => rfl
+  | succ n ih => simp only [iter, stepProc_done d p h]; exact ih
+
+theorem runProc_eq_iter (n : Nat) (d : Disk) (p : Proc) : runProc n d p = iter n (d, p) := by
+  induction n generalizing d p with
+  | zero => rfl
+  | succ n ih =>
+    simp only [runProc, iter]
+    by_cases hd : p.isDone = true
+    · simp only [hd, if_true, stepProc_done d p hd]; exact (iter_done n d p hd).symm
+    · simp only [hd]; exact ih _ _
+
+theorem sys1_run (d : Disk) (p : Proc) (n : Nat) :
+    (Sys.mk d [p]).run (List.replicate n (.step 0)) = ⟨(iter n (d, p)).1, [(iter n (d, p)).2]⟩ := by
+  induction n generalizing d p with
+  | zero => rfl
+  | succ n ih =>
+    simp only [List.replicate_succ, Sys.run, List.foldl_cons]
+    have : (Sys.mk d [p]).act (.step 0) = ⟨(stepProc d p).1, [(stepProc d p).2]⟩ := by
+      simp [Sys.act]
+    rw [this]
+    exact ih _ _
+
+theorem sys2_run0 (d : Disk) (p0 p1 : Proc) (n : Nat) :
+    (Sys.mk d [p0, p1]).run (List.replicate n (.step 0)) = ⟨(iter n (d, p0)).1, [(iter n (d, p0)).2, p1]⟩ := by
+  induction n generalizing d p0 with
+  | zero => rfl
+  | succ n ih =>
+    simp only [List.replicate_succ, Sys.run, List.foldl_cons]
+    have : (Sys.mk d [p0, p1]).act (.step 0) = ⟨(stepProc d p0).1, [(stepProc d p0).2, p1]⟩ := by
+      simp [Sys.act]
+    rw [this]
+    exact ih _ _
+
+theorem sys2_run1 (d : Disk) (p0 p1 : Proc) (n : Nat) :
+    (Sys.mk d [p0, p1]).run (List.replicate n (.step 1)) = ⟨(iter n (d, p1)).1, [p0, (iter n (d, p1)).2]⟩ := by
+  induction n generalizing d p1 with
+  | zero => rfl
+  | succ n ih =>
+    simp only [List.replicate_succ, Sys.run, List.foldl_cons]
+    have : (Sys.mk d [p0, p1]).act (.step 1) = ⟨(stepProc d p1).1, [p0, (stepProc d p1).2]⟩ := by
+      simp [Sys.act]
+    rw [this]
+    exact ih _ _
+
+theorem iter_fuel_disk (h : Abs) (b : Beh) : (iter fuel (toDisk h, Proc.init b)).1 = toDisk (specStep h b).1 := by
+  have := congrArg CallOut.disk (call_eq h b)
+  simpa [call, runProc_eq_iter] using this
+
+/-- The relation between program counter and disk that holds at every point of a call made by one process
+    alone on a good disk `toDisk h` against server behaviour `b`. -/
+def CallInv (h : Abs) (b : Beh) (d : Disk) (pr : Proc) : Prop :=
+  pr.beh = b ∧ pr.dry = false ∧
+  match pr.pc with
+  | .start => d = toDisk h
+  | .readCache => d = toDisk h
+  | .mkdir => d = toDisk h ∧ h = none
+  | .post held => d = toDisk h ∧ held = h
+  | .parseResp held b' => d = toDisk h ∧ held = h ∧ b' = b
+  | .assertCached _ => d = toDisk h
+  | .assertCode0 held _ p => d = toDisk h ∧ held = h ∧ (∀ q, p = some q → b = .profile q)
+  | .serverDate held p => d = toDisk h ∧ held = h ∧ (∀ q, p = some q → b = .profile q)
+  | .assertDate held q => d = toDisk h ∧ held = h ∧ b = .profile q
+  | .openWb q => d = toDisk h ∧ (specStep h b).1 = some q
+  | .write q => d = some [] ∧ (specStep h b).1 = some q
+  | .close q => d = toDisk (some q) ∧ (specStep h b).1 = some q
+  | .done _ => d = toDisk h ∨ d = toDisk (specStep h b).1
+
+theorem callInv_init (h : Abs) (b : Beh) : CallInv h b (toDisk h) (Proc.init b) := by
+  simp [CallInv, Proc.init]
+
+theorem callInv_step (h : Abs) (b : Beh) (d : Disk) (pr : Proc) (hi : CallInv h b d pr) :
+    CallInv h b (stepProc d pr).1 (stepProc d pr).2 := by
+  obtain ⟨pc, beh, dry, sent⟩ := pr
+  obtain ⟨hb, hd, hpc⟩ := hi
+  simp only at hb hd
+  subst hb hd
+  cases pc with
+  | start =>
+    simp only [CallInv] at hpc ⊢
+    subst hpc
+    cases h <;> simp [stepProc, toDisk]
+  | readCache =>
+    simp only [CallInv] at hpc ⊢
+    subst hpc
+    cases h <;> simp [stepProc, toDisk]
+  | mkdir =>
+    simp only [CallInv] at hpc ⊢
+    obtain ⟨rfl, rfl⟩ := hpc
+    simp [stepProc]
+  | post held =>
+    simp only [CallInv] at hpc ⊢
+    obtain ⟨rfl, rfl⟩ := hpc
+    cases beh <;> simp [stepProc]
+  | parseResp held b' =>
+    simp only [CallInv] at hpc ⊢
+    obtain ⟨rfl, rfl, rfl⟩ := hpc
+    cases b' <;> simp [stepProc]
+  | assertCached held =>
+    simp only [CallInv] at hpc ⊢
+    subst hpc
+    cases held <;> simp [stepProc]
+  | assertCode0 held is0 p =>
+    simp only [CallInv] at hpc ⊢
+    obtain ⟨rfl, rfl, hp⟩ := hpc
+    cases is0 <;> simp [stepProc]
+    exact hp
+  | serverDate held p =>
+    simp only [CallInv] at hpc ⊢
+    obtain ⟨rfl, rfl, hp⟩ := hpc
+    cases p with
+    | none => simp [stepProc]
+    | some q => simpa [stepProc] using hp q rfl
+  | assertDate held q =>
+    simp only [CallInv] at hpc ⊢
+    obtain ⟨rfl, rfl, rfl⟩ := hpc
+    cases held with
+    | none => simp [stepProc, specStep, accepts]
+    | some r =>
+      by_cases hle : r.date ≤ q.date <;> simp [stepProc, specStep, accepts, hle]
+  | openWb q =>
+    simp only [CallInv] at hpc ⊢
+    simpa [stepProc] using hpc.2
+  | write q =>
+    simp only [CallInv] at hpc ⊢
+    obtain ⟨rfl, hq⟩ := hpc
+    simpa [stepProc, toDisk] using hq
+  | close q =>
+    simp only [CallInv] at hpc ⊢
+    obtain ⟨rfl, hq⟩ := hpc
+    simp [stepProc, hq]
+  | done r =>
+    simp only [CallInv] at hpc ⊢
+    simpa [stepProc] using hpc
+
+theorem callInv_iter (h : Abs) (b : Beh) (n : Nat) (d : Disk) (pr : Proc) (hi : CallInv h b d pr) :
+    CallInv h b (iter n (d, pr)).1 (iter n (d, pr)).2 := by
+  induction n generalizing d pr with
+  | zero => exact hi
+  | succ n ih => exact ih _ _ (callInv_step h b d pr hi)
+
+/-! ### the file name -/
+
+theorem split_unique {α} [DecidableEq α] (c : α) (a a' b b' : List α) (ha : c ∉ a) (ha' : c ∉ a')
+    (h : a ++ c :: b = a' ++ c :: b') : a = a' ∧ b = b' := by
+  induction a generalizing a' with
+  | nil =>
+    cases a' with
+    | nil => simpa using h
+    | cons x xs =>
+      simp only [List.mem_cons, not_or] at ha'
+      simp at h
+      exact absurd h.1 ha'.1
+  | cons y ys ih =>
+    simp only [List.mem_cons, not_or] at ha
+    cases a' with
+    | nil =>
+      simp at h
+      exact absurd h.1.symm ha.1
+    | cons x xs =>
+      simp only [List.mem_cons, not_or] at ha'
+      simp at h
+      obtain ⟨rfl, h2⟩ := h
+      obtain ⟨r1, r2⟩ := ih xs ha.2 ha'.2 h2
+      exact ⟨by rw [r1], r2⟩
+
 end Ofx.Cache
